@@ -114,8 +114,8 @@ def run(chk, model_ok=True):
     # 1. the cipher objects alone: long encrypt sequences (model = same counter from the same seed)
     st = streams.Streams(chk, model_ok)
     st.add("privenc-long", lines_privenc_long(rng, 4 if quick else 12, 1500 if quick else 30000))
-    st.add("privenc-short", lines_privenc_long(rng, 60 if quick else 2000, 3))
-    st.add("privenc-wrap", lines_privenc_long(rng, 12 if quick else 200, 40, wrap=True))
+    st.add("privenc-short", lines_privenc_long(rng, 180 if quick else 2000, 3))
+    st.add("privenc-wrap", lines_privenc_long(rng, 36 if quick else 200, 40, wrap=True))
     st.run()
     n_pairs = 0
     for ln, out in zip(st.lines, st.impl):
@@ -141,8 +141,8 @@ def run(chk, model_ok=True):
                 chk.notes.append("the salt hook is not active (the wrap-around stream ran with random seeds)")
     st.diff("privenc")
     # 2. sessions: mixed requests, receives, timeouts, failing sends, re-keying
-    n_hist = 10 if quick else 120
-    steps = 120 if quick else 1500
+    n_hist = 30 if quick else 120
+    steps = 360 if quick else 1500
     all_sess = []
     n_msg = 0
     installs = 0
